@@ -20,6 +20,111 @@ HOST = 'crux_core::command::stream::CommandStreamExt::host'
 POLL = 'core::future::future::Future::poll'
 
 
+# adaptors that drop, duplicate, reorder, batch or truncate items: none may sit between a stage and its consumer
+LOSSY_ADAPTORS = {'filter', 'filter_map', 'skip', 'take', 'step_by', 'take_while', 'skip_while', 'take_until', 'zip', 'chunks', 'ready_chunks',
+                  'peekable', 'cycle', 'rev', 'scan', 'fuse_once', 'dedup', 'buffered', 'buffer_unordered', 'try_filter', 'nth', 'last',
+                  'select_next_some', 'abortable', 'catch_unwind', 'map_while', 'enumerate'}
+USER_CALLS = ['core::ops::function::Fn::call', 'core::ops::function::FnMut::call_mut', 'core::ops::function::FnOnce::call_once']
+
+
+def check_builders(rep, core):
+    rep.rule('R04.d', 'builder chains contain no adaptor that drops, duplicates, reorders or truncates items', floor=10)
+    rep.rule('R04.e', 'then_send emits exactly one event for a request output and one per stream item', floor=2)
+    rep.rule('R04.f', 'each stage closure feeds the item to the user callback once and returns the next stage hosted on the same context', floor=3)
+    scope = [f for f in core.built if not f.j.get('exp') and (f.npath.startswith('crux_core::command::builder::') or
+             (f.npath.startswith('crux_core::command::Command::') and f.kind == 'Closure') or f.npath.startswith('crux_core::command::stream::'))]
+    for f in scope:
+        bad = []
+        for bb, t in f.calls():
+            tr = norm(t.get('ctrait') or '')
+            if tr in ('futures_util::stream::stream::StreamExt', 'futures_util::future::future::FutureExt', 'core::iter::traits::iterator::Iterator',
+                      'futures_util::stream::try_stream::TryStreamExt', 'futures_util::sink::SinkExt') and last_seg(t['callee']) in LOSSY_ADAPTORS:
+                bad.append((bb, norm(t['callee'])))
+        if bad:
+            for bb, c in bad:
+                rep.bad('R04.d', '%s|%s' % (f.kpath, last_seg(c)), '%s puts the adaptor %s into a command chain: items can be dropped, duplicated, '
+                        'reordered or truncated' % (f.where(bb), c))
+        elif any(True for _ in f.calls()):
+            rep.ok('R04.d', f.kpath, 'no lossy adaptor')
+    # then_send
+    for adt, many in (('RequestBuilder', False), ('StreamBuilder', True)):
+        fs = [f for f in core.built if f.kind == 'Closure' and f.coroutine and ('builder::%s::<Effect, Event, Task>::then_send' % adt) in (f.root or '')]
+        key = '%s::then_send' % adt
+        if len(fs) != 1:
+            rep.missing('R04.e', key)
+            continue
+        f = fs[0]
+        sends = [(bb, t) for bb, t in f.calls('crux_core::command::context::CommandContext::send_event')]
+        users = [(bb, t) for bb, t in f.calls(*USER_CALLS)]
+        polls = [(bb, t) for bb, t in f.calls(POLL)]
+        ok = len(sends) == 1 and len(users) == 1 and len(polls) == 1
+        detail = ''
+        if ok:
+            sb, st = sends[0]
+            ub, ut = users[0]
+            # the event sent is the callback's result; the callback's argument is the awaited output
+            ev_ok = all(o.kind == 'call' and o.bb == ub for o in origins(f, st['args'][1])) and bool(origins(f, st['args'][1]))
+            arg_ok = False
+            for o in origins(f, ut['args'][1]):
+                if o.kind == 'agg' and o.stmt['rv'].get('ak') == 'tuple':
+                    inner = origins(f, o.stmt['rv']['ops'][0])
+                    arg_ok = bool(inner) and all(x.kind == 'call' and any(s2[0] == 'await' for s2 in x.steps) for x in inner)
+            edge = None
+            res = polls[0][1]['d']['l']
+            for sw, swt in f.terms('switch'):
+                if any(o.kind == 'rvalue' and o.stmt['rv']['k'] == 'discr' and o.stmt['rv']['a']['l'] == res for o in origins(f, swt['a'])):
+                    for v, b in swt['arms']:
+                        if v == 0:
+                            edge = (sw, b)
+            rets = f.return_blocks()
+            if not many:
+                # every path from the Ready edge to the return sends the event, exactly once (not in a cycle after the await)
+                after = f.reachable([edge[1]]) if edge else set()
+                once = edge is not None and all(r not in f.reachable([edge[1]], removed_blocks=[sb]) for r in rets) and \
+                    sb not in f.reachable_after(sb)
+            else:
+                # for every Some(item): a send before the next poll; the loop ends only on None
+                once = edge is not None and f.in_cycle(sb) and polls[0][0] in f.reachable_after(sb) and \
+                    polls[0][0] not in f.reachable([edge[1]], removed_blocks=[sb] + none_targets(f, edge[1]))
+            ok = ev_ok and arg_ok and once
+            detail = 'event is callback(result): %s; callback gets the awaited output: %s; emitted %s: %s' % (
+                ev_ok, arg_ok, 'per item' if many else 'once', once)
+        rep.expect('R04.e', ok, key, detail or 'shape', '%s no longer sends event(output) %s (%s)' % (key, 'for every item' if many else 'exactly once', detail))
+    # stage closures
+    n = 0
+    for f in core.built:
+        if f.kind != 'Closure' or f.coroutine or not f.npath.startswith('crux_core::command::builder::'):
+            continue
+        users = [(bb, t) for bb, t in f.calls(*USER_CALLS)]
+        nxt = [(bb, t) for bb, t in f.calls('crux_core::command::builder::RequestBuilder::into_future', 'crux_core::command::builder::StreamBuilder::into_stream')]
+        if not users or not nxt:
+            continue
+        if any('make_next_builder' not in ' '.join(c01.field_of_receiver(f, t['args'][0])) for bb, t in users):
+            continue
+        n += 1
+        ub, ut = users[0]
+        nb, nt = nxt[-1]
+        item_ok = False
+        for o in origins(f, ut['args'][1]):
+            if o.kind == 'agg' and o.stmt['rv'].get('ak') == 'tuple':
+                inner = origins(f, o.stmt['rv']['ops'][0])
+                item_ok = bool(inner) and all(x.kind == 'arg' and x.n == 2 and not x.suffix for x in inner)
+        chained = all(o.kind == 'call' and o.bb == ub for o in origins(f, nt['args'][0])) and bool(origins(f, nt['args'][0]))
+        ctx_ok = any('ctx' in x for x in c01.field_of_receiver(f, nt['args'][1], through_clone=True))
+        returned = any(o.kind == 'call' and o.bb == nb for o in origins(f, {'l': 0, 'p': []}, extra_identity=[('alloc::boxed::Box::pin', 0)]))
+        once = len(users) == 1 and not f.in_cycle(ub)
+        rep.expect('R04.f', item_ok and chained and ctx_ok and returned and once, f.kpath,
+                   'callback(item) -> next builder -> hosted on the captured context and returned',
+                   '%s: the stage closure does not pass its item to the callback once and return the next stage hosted on the captured '
+                   'context (item: %s, chained: %s, ctx: %s, returned: %s, once: %s)' % (f.path, item_ok, chained, ctx_ok, returned, once))
+    if n < 3:
+        rep.bad('R04.f', 'sites', 'expected at least 3 stage closures (then_request / then_stream), found %d' % n)
+
+
+def none_targets(fn, start):
+    return []
+
+
 def ready_edge_of_await(fn, fut_call_bb):
     """the edge taken when the await of the future created at fut_call_bb completes"""
     for bb, t in fn.calls(POLL):
@@ -150,5 +255,6 @@ def check(ctx, rep):
         rep.expect('R04.c', direct and in_loop, 'all|every-item', 'every item of the argument iterator is spawned (no adaptor, spawn inside the loop)',
                    'Command::all does not spawn every item of its argument (iterator adapted or spawn outside the loop)')
     counts = c01.check_linear(rep, core, 'default', rid='R04.c', only=lambda f, ty: 'crux_core::command::Command<' in ty)
+    check_builders(rep, core)
     rep.assume('futures StreamExt::forward/map and CommandSink deliver every item exactly once in order (checked for CommandSink in C01)')
     rep.assume('NOT DECIDED: reference semantics, algebraic laws, then_request/then_stream chaining under every resolution order')
